@@ -29,6 +29,7 @@ from geneticengine.grammar.metahandlers.ints import IntRange  # noqa: E402
 from geneticengine.grammar.metahandlers.lists import ListSizeBetween  # noqa: E402
 from geneticengine.grammar.metahandlers.vars import VarRange  # noqa: E402
 from geneticengine.problems import SingleObjectiveProblem  # noqa: E402
+from geneticengine.evaluation.tracker import SingleObjectiveProgressTracker  # noqa: E402
 from geneticengine.random.sources import NativeRandomSource  # noqa: E402
 from geneticengine.representations.grammatical_evolution.dynamic_structured_ge import (  # noqa: E402
     DynamicStructuredGrammaticalEvolutionRepresentation,
@@ -109,7 +110,7 @@ def size(p) -> int:
     return len(repr(p))
 
 
-def run_one(algo: str, rep_name: str, gname: str, seed: int, budget: int):
+def run_one(algo: str, rep_name: str, gname: str, seed: int, budget: int, own_tracker: bool = False):
     considered, start = GRAMMARS[gname]
     g = extract_grammar(considered, start)
     r = NativeRandomSource(seed)
@@ -138,18 +139,20 @@ def run_one(algo: str, rep_name: str, gname: str, seed: int, budget: int):
 
     problem = SingleObjectiveProblem(ff, minimize=False)
     b = EvaluationBudget(budget)
+    # a tracker supplied by the user without an evaluator (the usual way to attach recorders)
+    kw = {"tracker": SingleObjectiveProgressTracker(problem, recorders=[])} if own_tracker else {}
     try:
         if algo == "gp":
-            alg = GeneticProgramming(problem, b, rep, random=r, population_size=8)
+            alg = GeneticProgramming(problem, b, rep, random=r, population_size=8, **kw)
         elif algo == "gpc":
             # population large enough for the default step to reserve elitism slots
-            alg = GeneticProgramming(problem, b, rep, random=r, population_size=24)
+            alg = GeneticProgramming(problem, b, rep, random=r, population_size=24, **kw)
         elif algo == "rs":
-            alg = RandomSearch(problem, b, rep, random=r)
+            alg = RandomSearch(problem, b, rep, random=r, **kw)
         elif algo == "hc":
-            alg = HC(problem, b, rep, random=r, number_of_mutations=3)
+            alg = HC(problem, b, rep, random=r, number_of_mutations=3, **kw)
         else:
-            alg = OnePlusOne(problem, b, rep, random=r)
+            alg = OnePlusOne(problem, b, rep, random=r, **kw)
         best = alg.search()
         bf = best.get_fitness(problem).fitness_components[0]
         return {"evaluated": log, "best": repr(best.get_phenotype()), "fitness": bf}
@@ -161,7 +164,11 @@ def main():
     configs = json.loads(sys.argv[1])
     out = {}
     for (algo, rep_name, gname, seed, budget) in configs:
-        out[f"{algo}/{rep_name}/{gname}/{seed}"] = run_one(algo, rep_name, gname, seed, budget)
+        key = f"{algo}/{rep_name}/{gname}/{seed}"
+        out[key] = run_one(algo, rep_name, gname, seed, budget)
+        # the same search again, one after the other in THIS process, with a user-supplied tracker
+        out[key + "#again"] = run_one(algo, rep_name, gname, seed, budget, own_tracker=True)
+        out[key + "#again2"] = run_one(algo, rep_name, gname, seed, budget, own_tracker=True)
     print("C08RESULT " + json.dumps(out))
 
 
